@@ -8,6 +8,7 @@ use crate::ctx::{hex_short, Ctx};
 use crate::gen;
 use crate::refenc::*;
 use crate::rng::Rng;
+use crate::visit::veq;
 use serde_json::json;
 use tls_parser::*;
 
@@ -66,12 +67,12 @@ macro_rules! sweep8 {
 
 fn hs_ok(v: &AHs) -> (bool, Vec<u8>) {
     let b = v.to_bytes();
-    let good = matches!(parse_tls_message_handshake(&b), Ok((rem, m)) if rem.is_empty() && m == TlsMessage::Handshake(v.expected()));
+    let good = matches!(parse_tls_message_handshake(&b), Ok((rem, m)) if rem.is_empty() && veq(&m, &TlsMessage::Handshake(v.expected())));
     (good, b)
 }
 fn ext_ok(a: &AExt) -> (bool, Vec<u8>) {
     let b = a.to_bytes();
-    let good = matches!(parse_tls_extension(&b), Ok((rem, e)) if rem.is_empty() && e == a.expected());
+    let good = matches!(parse_tls_extension(&b), Ok((rem, e)) if rem.is_empty() && veq(&e, &a.expected()));
     (good, b)
 }
 
